@@ -499,6 +499,31 @@ def gen_helper(world, rng, insts, target, hkind=None, validity="valid", inplace=
         bad_elem, tag = rng.choice(cg.elem_nonconf(elem))
         op["position"] = f"element:{tag}"
 
+    if validity == "dup_key" and t.kind == "klist" and items:
+        # an element operation that would give two items the same key (ValueError expected, nothing may change)
+        j = rng.randrange(length)
+        kj = getattr(items[j], "k", "a")
+        others = [i for i in range(length) if i != j]
+        form = rng.choice(["append_dup"] + (["index_dup", "update_dup", "negindex_dup"] if others else []))
+        op["form"] = form
+        op["position"] = "duplicate_key"
+        if form == "append_dup":
+            op["name"] = f"with_{sing}"
+            op["hkind"] = "with_item"
+            op["args"] = [["kleaf", kj, {"v": 55}]]
+        elif form in ("index_dup", "negindex_dup"):
+            i = rng.choice(others)
+            op["name"] = f"with_{sing}"
+            op["hkind"] = "with_item"
+            op["args"] = [["kleaf", kj, {"v": 55}]]
+            op["kwargs"]["_index"] = i if form == "index_dup" else i - length
+        else:
+            i = rng.choice(others)
+            op["name"] = f"update_{sing}"
+            op["hkind"] = "update_item"
+            op["args"] = [cg.R_lit(i)]
+            op["kwargs"]["k"] = cg.R_lit(kj)
+        return op
     if t.kind in ("list", "klist"):
         if hkind == "with_item":
             form = rng.choice(["append", "index", "insert"] + (["kwargs", "index+kwargs"] if spec_elem else []) + (["bare_key"] if elem == "kleaf" else []) + (["by_key"] if t.kind == "klist" and elem == "kleaf" else []))
@@ -668,7 +693,7 @@ def gen_helper(world, rng, insts, target, hkind=None, validity="valid", inplace=
     return op
 
 
-VALIDITIES = ["valid", "nonconf", "missing_target", "unknown_kw", "raising_cb", "nonconf_nested", "nonconf_key"]
+VALIDITIES = ["valid", "nonconf", "missing_target", "unknown_kw", "raising_cb", "nonconf_nested", "nonconf_key", "dup_key"]
 
 
 def gen_state_op(world, rng, insts):
@@ -890,3 +915,23 @@ def substitute_nonconf(op, slot, rng):
     bad_op["validity"] = "nonconf"
     bad_op["position"] = f"{op.get('hkind', op['kind'])}:{where}[{key}]:{tag}"
     return bad_op
+
+
+def changed_roots(step):
+    """
+    Names of snapshot roots with a real change. A root (argument) whose post node merely became a reference to a path
+    under another root (the operation stored that very object somewhere else) is aliasing, not a change of the object.
+    """
+    pre, post = step.pre["snap"], step.post["snap"]
+    if pre == post:
+        return []
+    roots = list(step.pre["roots"])
+    out = set()
+    for p in pre.changed_paths(post):
+        root = next((r for r in sorted(roots, key=len, reverse=True) if p == r or p.startswith((r + ".", r + "[", r + "{", r + "<"))), p)
+        out.add(root)
+    for r in list(out):
+        node = post.nodes.get(r)
+        if node and node[0] == "ref" and pre.nodes.get(r, ("",))[0] != "ref":
+            out.discard(r)
+    return sorted(out)
